@@ -48,6 +48,14 @@ mod c14;
 mod c14_gen;
 #[cfg(all(kani, feature = "c15"))]
 mod c15;
+#[cfg(all(kani, feature = "c16_packed"))]
+mod c16_packed;
+#[cfg(all(kani, feature = "c15_glyf"))]
+mod c15_glyf;
+#[cfg(all(kani, feature = "c15_cff"))]
+mod c15_cff;
+#[cfg(all(kani, feature = "c18_charset"))]
+mod c18_charset;
 #[cfg(all(kani, feature = "c16"))]
 mod c16;
 #[cfg(all(kani, feature = "c12"))]
